@@ -14,6 +14,8 @@ import (
 	"golang.org/x/tools/go/ssa"
 )
 
+var debugFA *FrameAnalysis
+
 func verifDir() string {
 	if d := os.Getenv("GV_VERIF"); d != "" {
 		return d
@@ -51,6 +53,33 @@ func main() {
 			go func() {
 				time.Sleep(time.Duration(n) * time.Second)
 				pprof.StopCPUProfile()
+				if debugFA != nil {
+					var big *Summary
+					for _, s := range debugFA.sums {
+						if big == nil || len(s.Links) > len(big.Links) {
+							big = s
+						}
+					}
+					if big != nil {
+						fmt.Println("BIGGEST", funcKey(big.Fn), "links", len(big.Links), "writes", len(big.Writes))
+						hist := map[string]int{}
+						for k := range big.Links {
+							hist[k.Field]++
+						}
+						for f, n := range hist {
+							if n > 20 {
+								fmt.Println("  field", f, n)
+							}
+						}
+						i := 0
+						for k, c := range big.Links {
+							if i < 25 && k.Field == "Document.families" {
+								fmt.Println("   ", k.Field, objName(big.Fn, k.Obj), "<-", c.String())
+								i++
+							}
+						}
+					}
+				}
 				os.Exit(3)
 			}()
 		}
@@ -92,6 +121,7 @@ func main() {
 			os.Exit(2)
 		}
 		fa := NewFrameAnalysis(ld)
+		debugFA = fa
 		for _, a := range os.Args[2:] {
 			fn := ld.Funcs[a]
 			if fn == nil {
